@@ -23,6 +23,9 @@ HStep(op, r, s) ==
                              ELSE r[1] = 0 /\ tab' = tab
        [] op[1] = "get" -> /\ tab' = tab
                            /\ IF \E e \in m : e[2] = op[3] THEN <<r[1], r[2]>> \in m /\ r[2] = op[3] ELSE r[1] = 0
+       [] op[1] = "insn" -> r[1] /\ tab' = [tab EXCEPT ![t] = m \cup {<<op[5] + k, op[3] + k>> : k \in 0 .. op[4] - 1}]
+       [] op[1] = "remn" -> LET ids == op[3] .. op[3] + op[4] - 1 gone == {e \in m : e[1] \in ids} IN
+                            r[1] = Cardinality(gone) /\ tab' = [tab EXCEPT ![t] = m \ gone]
        [] op[1] = "swap" -> tab' = [tab EXCEPT ![t] = tab[o], ![o] = m]
        [] op[1] = "release" -> tab' = [tab EXCEPT ![t] = {}]
        [] op[1] = "all" -> tab' = tab
